@@ -273,6 +273,12 @@ def run_case(case):
         if rng.random() < 0.5:
             uarr, _ = gen.face_arrays(rng, g, 'sign')
             terms.append(pf.convectionUpwindTerm(gen.facevar(pf, m, [0.2 * a for a in uarr])))
+        if rng.random() < 0.5:
+            # a bare source vector, in front of or behind the other terms; matrices in any sparse container
+            src_ = pf.constantSourceTerm(pf.CellVariable(m, rng.normal(0, 1, g.dims) / dt))
+            terms = ([src_] + terms) if rng.random() < 0.6 else (terms + [src_])
+            cov['solve_with_bare_source_vector'] = 1
+        terms = gen.vary_terms(rng, terms)
         spy = SpySolver()
         solve_with(pf, spy, phi, terms, default_path=bool(case['seed'][-1] % 2))
         ok = bool(np.all(np.isfinite(phi._value[tuple(slice(1, -1) for _ in range(g.nd))])))
@@ -281,6 +287,15 @@ def run_case(case):
             rows_check(g, phi, bad, maxerr, cov, 'solvePDE')
             interior_consistency(g, phi, spy, bad, maxerr, cov, 'solvePDE')
             plotprofile_check(g, phi, bad, cov)
+            if rng.random() < 0.5:
+                # (3a) the very same term list handed to solvePDE again (sweeps of an iteration re-use the list as it stands)
+                for rnd_ in range(2):
+                    spy_a = SpySolver()
+                    solve_with(pf, spy_a, phi, terms, default_path=bool((case['seed'][-1] + rnd_) % 2))
+                    if np.all(np.isfinite(phi._value)):
+                        ghosts(phi, 'solvePDE-same-list-again')
+                        rows_check(g, phi, bad, maxerr, cov, 'solvePDE of the same term list, call #%d' % (rnd_ + 2))
+                        interior_consistency(g, phi, spy_a, bad, maxerr, cov, 'solvePDE of the same term list, call #%d' % (rnd_ + 2))
             # (3b) edit ONE side's coefficients through the public setters (values untouched), solve again
             ke = int(rng.integers(0, g.nd))
             if ke not in spec['periodic']:
